@@ -26,6 +26,11 @@ def build(d, tag, fmt, n_models, perm=None, n_cols=2, nan_col=False, seed=0, mod
         # magnitudes a cgs luminosity or a dust mass fraction can have: beyond the range of single precision on both sides
         cols['PAR%d' % (n_cols + 1)] = np.array([(3.3e40 * (m + 1)) if m % 2 == 0 else (-2.2e-50 * (m + 1)) for m in range(n_models)])
         n_cols += 1
+        # ... negative values with three-digit exponents (eleven characters in %.3e), and a column whose values are all tiny but distinct
+        cols['PAR%d' % (n_cols + 1)] = np.array([(-2.5e120 * (m + 1)) if m % 2 == 0 else (-3.0e-105 * (m + 1)) for m in range(n_models)])
+        n_cols += 1
+        cols['PAR%d' % (n_cols + 1)] = np.array([6.0e-10 * (m + 1) for m in range(n_models)])
+        n_cols += 1
     md = os.path.join(d, tag)
     os.makedirs(md)
     apdep = (mode == '3d')
